@@ -112,6 +112,10 @@ class Ctx:
 
     def check(self, clause, ok, detail=None, tags=None, case=None):
         """Record one oracle evaluation; ok=False is a violation."""
+        if not (ok is True or ok is False or type(ok).__name__ in ("bool_", "bool")):
+            # a verdict that is not a boolean is a harness bug (e.g. a shifted argument list): fail loudly, never pass silently
+            raise TypeError(f"verdict of clause {clause} is {type(ok).__name__}, not bool")
+        ok = bool(ok)
         self.clauses[clause] += 1
         if ok:
             return True
